@@ -29,8 +29,9 @@ def ensure_venv():
 
 def tree_id():
     try:
-        h = subprocess.check_output(["git", "-C", REPO, "rev-parse", "HEAD"], text=True).strip()
-        d = subprocess.check_output(["git", "-C", REPO, "status", "--porcelain", "--", "comb_spec_searcher"], text=True).strip()
+        h = subprocess.check_output(["git", "-C", REPO, "rev-parse", "HEAD"], text=True, stderr=subprocess.DEVNULL).strip()
+        d = subprocess.check_output(["git", "-C", REPO, "status", "--porcelain", "--", "comb_spec_searcher"], text=True,
+                                    stderr=subprocess.DEVNULL).strip()
         return {"head": h, "dirty": bool(d)}
     except Exception:
         return {"head": "unknown", "dirty": True}
@@ -90,7 +91,7 @@ def run_harness(pid, tier, seed, budget_s):
 def replay_model(pid, ob, fn_result):
     """Replay a solver counter-model on the real function (concrete Python), if a replay adapter exists."""
     ensure_venv()
-    req = {"function": fn_result["function"], "file": fn_result["file"], "obligation": ob["id"],
+    req = {"function": fn_result["function"], "file": fn_result["file"], "obligation": ob.get("obligation", ob.get("id")),
            "model": ob.get("model", {}), "note": ob.get("note", "")}
     env = dict(os.environ, PYTHONPATH=f"{ROOT}:{REPO}", PYTHONHASHSEED="0", PYTHONDONTWRITEBYTECODE="1")
     try:
@@ -160,7 +161,8 @@ def main():
         if o["status"] == "sat":
             violations.append({"kind": "obligation", "obligation": oid, "note": o.get("note", ""), "line": o.get("line"),
                                "model": o.get("model", {}), "solver": o["solver"], "model_txt": o.get("model_txt", ""),
-                               "was_locked": oid in locked, "function": o["function"]})
+                               "was_locked": oid in locked, "function": o["function"],
+                               "file": fn_by_name.get(o["function"], {}).get("file")})
         elif o["status"] != "unsat":
             undecided.append({"obligation": oid, "reason": f'{o["solver"]}: unknown {o.get("reason", "")} cvc5={o.get("cvc5", "-")}',
                               "was_locked": oid in locked})
